@@ -91,6 +91,13 @@ def configs(tier, seed):
             for res in ("ResRAW0", "ResR0WA"):
                 init = {"e3": 5, "e2s": 2}.get(sh[0], ((1 << _width(sh)) - 1) if sh[0] == "s" else (1 if _width(sh) else 0))
                 out.append({"cls": cls, "shape": list(sh), "init": init, "inreg": res})
+    # the action behind a heterogeneous LIST of fields (narrow element first), and zero-width R / W fields whose only
+    # content is their strobe, inside a register
+    for cls in ("RW", "RW1C", "RW1S"):
+        for sh in (("u", 4), ("u", 1), ("s", 3)):
+            out.append({"cls": cls, "shape": list(sh), "init": 1, "inreg": "ResRAW0", "layout": "list"})
+    for w in (0, 1, 5):
+        out.append({"cls": "RW", "shape": ["u", w], "init": 0, "inreg": "ResRAW0", "layout": "strobes"})
     return out
 
 
@@ -108,9 +115,18 @@ def _inreg_maker(cfg):
 
     def make():
         sh = _shape(cfg["shape"])
-        reg = csr.Register({"lo": csr.Field(action.RW, 3), "res": csr.Field(getattr(action, cfg["inreg"]), 2),
-                            "x": csr.Field(getattr(action, cfg["cls"]), sh, init=_to_init(cfg["shape"], cfg["init"])),
-                            "res2": csr.Field(getattr(action, cfg["inreg"]), 1), "hi": csr.Field(action.RW, 4)}, access="rw")
+        if cfg.get("layout") == "list":
+            # [2-bit, 6-bit] list (lo = its second element: 3 bits would not fit the first), then x, then hi
+            reg = csr.Register({"pre": [csr.Field(action.RW, 2), csr.Field(action.RW, 6)],
+                                "x": csr.Field(getattr(action, cfg["cls"]), sh, init=_to_init(cfg["shape"], cfg["init"])),
+                                "hi": csr.Field(action.RW, 4)}, access="rw")
+        elif cfg.get("layout") == "strobes":
+            reg = csr.Register({"kick": csr.Field(action.W, sh), "pop": csr.Field(action.R, sh),
+                                "hi": csr.Field(action.RW, 4)}, access="rw")
+        else:
+            reg = csr.Register({"lo": csr.Field(action.RW, 3), "res": csr.Field(getattr(action, cfg["inreg"]), 2),
+                                "x": csr.Field(getattr(action, cfg["cls"]), sh, init=_to_init(cfg["shape"], cfg["init"])),
+                                "res2": csr.Field(getattr(action, cfg["inreg"]), 1), "hi": csr.Field(action.RW, 4)}, access="rw")
         from ..bmc import Ports, raw
         from amaranth.lib.wiring import In
         ports = Ports()
@@ -119,8 +135,9 @@ def _inreg_maker(cfg):
             ports.append(s)
             if path[-1] in ("r_stb", "w_stb", "w_data"):
                 ports.env.add(id(s))
-        for name in ("lo", "x", "hi"):
-            fa = reg.f[name]
+        fas = {"list": lambda: [reg.f.pre[0], reg.f.pre[1], reg.f.x, reg.f.hi],
+               "strobes": lambda: [reg.f.kick, reg.f.pop, reg.f.hi]}.get(cfg.get("layout"), lambda: [reg.f.lo, reg.f.x, reg.f.hi])()
+        for fa in fas:
             for path, member, s in fa.signature.flatten(fa):
                 s = raw(s)
                 if any(s is p for p in ports):
@@ -135,6 +152,31 @@ def _inreg_maker(cfg):
 def _inreg_queries(h, cfg):
     w = _width(cfg["shape"])
     lo_x = 3 + 2
+    if cfg.get("layout") == "list":
+        def readback_list(h, fr):
+            f = fr[0]
+            reg = h.reg
+            rd = f.sig(reg.element.r_data)
+            if rd.size() != 8 + w + 4:
+                return [], z3.BoolVal(True)        # the element is not as wide as the sum of its fields
+            bad = [z3.Extract(1, 0, rd) != f.sig(reg.f.pre[0].data), z3.Extract(7, 2, rd) != f.sig(reg.f.pre[1].data),
+                   z3.Extract(8 + w - 1, 8, rd) != f.sig(reg.f.x.data),
+                   z3.Extract(8 + w + 3, 8 + w, rd) != f.sig(reg.f.hi.data), bv(32, rd.size()) != bv(32, 8 + w + 4)]
+            return [], z3.Or(*bad)
+        return [Q("bus-read-of-a-field-equals-its-data", 1, readback_list,
+                  twin=lambda h, fr: ([], fr[0].sig(h.reg.element.r_data) != 0))]
+    if cfg.get("layout") == "strobes":
+        def strobes(h, fr):
+            f = fr[0]
+            reg = h.reg
+            el = reg.element
+            bad = [f.sig(reg.f.kick.w_stb) != f.sig(el.w_stb), f.sig(reg.f.pop.r_stb) != f.sig(el.r_stb)]
+            if w:
+                bad.append(f.sig(reg.f.kick.w_data) != z3.Extract(w - 1, 0, f.sig(el.w_data)))
+                bad.append(z3.Extract(2 * w - 1, w, f.sig(el.r_data)) != f.sig(reg.f.pop.r_data))
+            return [], z3.Or(*bad)
+        return [Q("strobes-reach-zero-width-fields", 1, strobes,
+                  twin=lambda h, fr: ([], is1(fr[0].sig(h.reg.f.kick.w_stb))))]
 
     def readback(h, fr):
         f = fr[0]
